@@ -289,7 +289,9 @@ where
             ready!(Pin::new(this.io.as_mut().unwrap()).poll_read(cx, buf.unfilled()))?;
             *this.filled = buf.filled().len();
 
-            if buf.filled().len() == len || buf.filled()[len..] != HTTP2_PREFIX[len..] {
+            // Only the bytes read so far can be compared: the preface may arrive in pieces.
+            let filled = buf.filled();
+            if filled.len() == len || filled[len..] != HTTP2_PREFIX[len..filled.len()] {
                 *this.version = HttpProtocol::Http1;
                 break;
             }
